@@ -8,4 +8,5 @@ def main : IO UInt32 :=
     | "c01" => C01.check params lines
     | "c01d" => C01.check params lines
     | "c01re" => C01.check params lines
+    | "c01twin" => C01.checkTwin params lines
     | _ => { bad := [s!"unknown family {family}"] })
